@@ -12,6 +12,7 @@ import (
 	"os/exec"
 	"strconv"
 	"strings"
+	"sync/atomic"
 	"time"
 )
 
@@ -35,6 +36,7 @@ type Solver struct {
 	tctx    *TermCtx
 	timeout time.Duration
 	log     io.Writer
+	killed  atomic.Bool // set by the watchdog of Check
 	// stats
 	Queries   int
 	SatN      int
@@ -68,7 +70,7 @@ func (s *Solver) boot() error {
 	ms := strconv.Itoa(int(s.timeout / time.Millisecond))
 	switch s.kind {
 	case "z3", "z3-new":
-		cmd = exec.Command(s.kind, "-in", "-t:"+ms)
+		cmd = exec.Command(s.kind, "-in", "-t:"+ms, "-memory:"+solverMemMB())
 	case "cvc5":
 		cmd = exec.Command("cvc5", "--incremental", "--lang=smt2", "--produce-models", "--tlimit-per="+ms)
 	default:
@@ -191,16 +193,60 @@ func (s *Solver) sync(pc []*Term) {
 func (s *Solver) readLine() string {
 	line, err := s.out.ReadString('\n')
 	if err != nil {
+		if s.killed.Load() {
+			panic(solverKilled{})
+		}
 		panic(engineError("solver died: " + err.Error()))
 	}
 	return strings.TrimSpace(line)
 }
 
+// solverKilled is raised inside Check when the watchdog had to kill a solver
+// process that ignored its own time limit (or ran out of its memory limit).
+type solverKilled struct{}
+
+func solverMemMB() string {
+	if v := os.Getenv("SYMGO_SOLVER_MEM_MB"); v != "" {
+		return v
+	}
+	return "3072"
+}
+
 // Check decides pc ∧ extra. vars lists the variables whose model values are
 // wanted when the answer is sat.
-func (s *Solver) Check(pc []*Term, extra *Term, vars []*Term) (SatResult, Model) {
-	s.sync(pc)
+func (s *Solver) Check(pc []*Term, extra *Term, vars []*Term) (res SatResult, model Model) {
 	t0 := time.Now()
+	// watchdog: the solver's own per-query limit is a soft one; a process that
+	// does not answer within twice that (plus slack) is killed, the query is
+	// Unknown (never a pass), and a fresh process is booted.
+	s.killed.Store(false)
+	proc := s.cmd.Process
+	wd := time.AfterFunc(2*s.timeout+10*time.Second, func() {
+		s.killed.Store(true)
+		proc.Kill()
+	})
+	defer func() {
+		wd.Stop()
+		if r := recover(); r != nil {
+			if _, ok := r.(solverKilled); !ok {
+				panic(r)
+			}
+			s.cmd.Wait()
+			s.cmd = nil
+			s.Restarts++
+			if err := s.boot(); err != nil {
+				panic(engineError("solver restart failed: " + err.Error()))
+			}
+			s.Queries++
+			s.UnknownN++
+			s.Time += time.Since(t0)
+			if s.dump != nil {
+				s.dump.pending = false
+			}
+			res, model = Unknown, nil
+		}
+	}()
+	s.sync(pc)
 	if extra != nil {
 		s.define(extra)
 		s.send("(push 1)")
@@ -211,9 +257,15 @@ func (s *Solver) Check(pc []*Term, extra *Term, vars []*Term) (SatResult, Model)
 	}
 	s.send("(check-sat)")
 	s.in.Flush()
-	res := Unknown
+	res = Unknown
 	ans := s.readLine()
 	for strings.HasPrefix(ans, "(error") || ans == "" {
+		if strings.HasPrefix(ans, "(error") && strings.Contains(ans, "memory") {
+			// the solver hit its memory limit: unknown, on a fresh process
+			s.killed.Store(true)
+			proc.Kill()
+			panic(solverKilled{})
+		}
 		if strings.HasPrefix(ans, "(error") {
 			fmt.Fprintln(os.Stderr, "SOLVER ERROR:", ans)
 			panic(engineError("solver reported " + ans))
@@ -232,7 +284,6 @@ func (s *Solver) Check(pc []*Term, extra *Term, vars []*Term) (SatResult, Model)
 		s.dump.results = append(s.dump.results, res.String())
 		s.dump.pending = false
 	}
-	var model Model
 	if res == Sat {
 		model = s.getModel(vars)
 	}
